@@ -42,7 +42,9 @@ def cases(draw, big=False):
             'costs': costs, 'dict': len(costs) > 1 or draw(st.booleans()),
             'mode': draw(st.sampled_from(['eval', 'eval', 'train-hard'])),
             'wseed': draw(st.integers(0, 50)), 'aseed': draw(st.integers(0, 200)),
-            'temperature': round(math.exp(t), 4)}
+            'temperature': round(math.exp(t), 4),
+            # Gumbel sampling configured (it must not matter in eval mode)
+            'gumbel': draw(st.booleans())}
 
 
 def mps_alive(spec, summ, res):
@@ -104,7 +106,8 @@ def oracle(case) -> Result:
     mps, x0 = mu.build_mps(spec, case['wseed'], case['w_prec'], case['a_prec'],
                            per_channel=case['per_channel'], cost=cost,
                            temperature=case['temperature'],
-                           hard_softmax=(case['mode'] == 'train-hard'))
+                           hard_softmax=(case['mode'] == 'train-hard'),
+                           gumbel_softmax=bool(case.get('gumbel')) and case['mode'] == 'eval')
     mu.set_coefficients(mps, case['aseed'])
     if case['mode'] == 'eval':
         mps.eval()
